@@ -1172,7 +1172,7 @@ static void c12_one(int ext, uint64_t su, int w, int64_t a, int grow) {
 
 static void run_c12(void) {
     u64vec B = {0};
-    alpha_boundary_windows(&B, vh_thorough ? 2 : 1);
+    alpha_boundary_windows(&B, vh_thorough ? 3 : 2);
     vh_infostr("boundary_alphabet_size", "%zu", B.n);
     for (int ext = 0; ext < 2; ext++) {
         if (!vh_section_begin(ext ? "add/external" : "add/tagged")) {
